@@ -3,5 +3,7 @@ CONSTANTS
   MaxDepth = 2
   SampleSize = 500
   NegUnionFlipsEach = FALSE
+  FalsyObjs = {}
+  OperandTruthFilter = FALSE
 SPECIFICATION Spec
 INVARIANT RefSane
